@@ -7,6 +7,7 @@ CHECKS = {
     "C01": {
         "harness": "c01",
         "level": "exploration",
+        "fuzz": {"thorough": 20000},
         "floor": {"quick": 500, "thorough": 1000},
         "timeout": {"quick": 1500, "thorough": 7200},
         "assumptions": [
@@ -36,6 +37,7 @@ CHECKS = {
     "C05": {
         "harness": "c05",
         "level": "exploration",
+        "fuzz": {"thorough": 40000},
         "floor": {"quick": 500, "thorough": 1000},
         "timeout": {"quick": 1500, "thorough": 7200},
         "assumptions": [
